@@ -120,6 +120,16 @@ def step (d : DState) (line : String) : DState × String :=
       | none => (d, "bad-op")
       | some d0 => ({ d0 with s := d0.s.step d0.c p .resume }, "ok")
     | _ => (d, "bad-op")
+  | "rtimer" :: ts =>
+    -- the control loop's wake-up at `now`: due timers move from the heap into the tick buffer
+    match int ts with
+    | some (now, []) =>
+      match setNow d noPol now with
+      | none => (d, "bad-op")
+      | some d0 =>
+        let s1 := d0.s.step d0.c noPol (.run .timer)
+        ({ d0 with s := s1 }, match s1.live with | some r => sList sTick r.buf | none => "not-live")
+    | _ => (d, "bad-op")
   | ["rshow"] => (d, sLive d.c.cfg d.s)
   | ["hstate"] => (d, sH d.s)
   | ["islive"] => (d, sBool d.s.live.isSome)
